@@ -205,6 +205,10 @@ struct World {
     usable_answers: usize,
     max_asked: i8,
     deny_marked: bool,
+    /// the harness' own bookkeeping: a valid unauthenticated DENY/RSTR answer was seen since the last usable answer
+    deny_seen: bool,
+    /// the last datagram was produced by a real s2c sealing of this harness (persisting over replays)
+    last_s2c_sealed: bool,
     init_proto: ProtocolVersion,
     nonup_valid: usize,
     marker_seen: bool,
@@ -347,6 +351,8 @@ fn new_world(w: &[&str]) -> World {
         usable_answers: 0,
         max_asked: i8::MIN,
         deny_marked: false,
+        deny_seen: false,
+        last_s2c_sealed: false,
         init_proto: proto,
         nonup_valid: 0,
         marker_seen: false,
@@ -562,6 +568,15 @@ fn exec_timer(wd: &mut World, w: &[&str], run: &mut Run, prop: Prop, key: &mut S
             if unreachable && (out == "demobilize") != wd.deny_marked {
                 run.oracle_fail("reset_when_unreachable", &format!("deny={}", wd.deny_marked as u8), "reset vs demobilise does not follow the deny mark");
             }
+            // the property's own clause: "... or demobilised if an unauthenticated deny was seen since its last usable
+            // answer" — from the harness' bookkeeping of the traffic, not from the source's flag
+            if unreachable && !wd.nts && (out == "demobilize") != wd.deny_seen {
+                run.oracle_fail("demobilised_iff_deny_seen", &format!("deny_seen={} action={}", wd.deny_seen as u8, out),
+                    "unreachable source: Demobilize must be returned exactly when a valid unauthenticated DENY/RSTR answer was seen since the last usable answer (else Reset)");
+            }
+            if unreachable && !wd.nts {
+                run.hit(if wd.deny_seen { "c11-unreachable-deny-seen" } else { "c11-unreachable-no-deny" });
+            }
         }
     }
     if prop == Prop::C11 {
@@ -637,6 +652,7 @@ fn build_datagram(wd: &mut World, w: &[&str]) -> Vec<u8> {
         return wd.last_bytes.clone();
     }
     if let Some(raw) = kv(w, "d.raw") {
+        wd.last_s2c_sealed = false;
         return unhex(raw).expect("raw hex");
     }
     let mut d: BTreeMap<String, String> = BTreeMap::new();
@@ -692,6 +708,28 @@ fn build_datagram(wd: &mut World, w: &[&str]) -> Vec<u8> {
     res.expect("harness: datagram description does not serialise");
     let n = cursor.position() as usize;
     let mut bytes = buf[..n].to_vec();
+    wd.last_s2c_sealed = sealing_key == Some(KEY_S2C) && wd.last_seal.is_some();
+    if let Some(f) = d.get("fauth") {
+        // forged NTS authenticator appended by hand (never sealed by anyone): `<nonce length>:<ciphertext length>`,
+        // random nonce / ciphertext bytes derived from the lengths; layout type(2) len(2) nonce_len(2) ct_len(2)
+        // nonce (padded to 4) ciphertext (padded to 4), zero-padded to at least 16 bytes
+        let (nl, cl) = f.split_once(':').expect("fauth");
+        let (nl, cl): (usize, usize) = (nl.parse().unwrap(), cl.parse().unwrap());
+        let mut body = vec![];
+        body.extend_from_slice(&(nl as u16).to_be_bytes());
+        body.extend_from_slice(&(cl as u16).to_be_bytes());
+        body.extend((0..nl).map(|i| 0xA0u8 ^ (i as u8).wrapping_mul(7)));
+        while body.len() % 4 != 0 {
+            body.push(0);
+        }
+        body.extend((0..cl).map(|i| 0x5Cu8 ^ (i as u8).wrapping_mul(13)));
+        while body.len() % 4 != 0 || body.len() < 12 {
+            body.push(0);
+        }
+        bytes.extend_from_slice(&0x0404u16.to_be_bytes());
+        bytes.extend_from_slice(&((4 + body.len()) as u16).to_be_bytes());
+        bytes.extend_from_slice(&body);
+    }
     if let Some(m) = d.get("mut") {
         for item in m.split(',') {
             let (i, x) = item.split_once(':').expect("mut");
@@ -836,7 +874,12 @@ fn exec_incoming(wd: &mut World, w: &[&str], run: &mut Run, prop: Prop, key: &mu
         }
     }
     if prop == Prop::C07 && wd.nts {
-        let authentic = rec.is_some() && within && org_match && (uid_in("ua") || uid_in("ue"));
+        // authenticated AND bound: the parser's record says so, and — independently of the parser — the harness really
+        // sealed this datagram under the s2c key (a datagram nobody sealed can never be authentic)
+        let authentic = rec.is_some() && within && org_match && (uid_in("ua") || uid_in("ue")) && wd.last_s2c_sealed;
+        if kv(w, "d.fauth").is_some() {
+            run.hit(if effect { "c07-forged-auth-effect" } else { "c07-forged-auth-ignored" });
+        }
         if !authentic && effect {
             let what = if demob { "demobilise" } else if accepted { "measurement" } else if remote_after != remote_before { "pollrate" }
                 else if cookies_after != cookies_before { "cookie" } else if snap_after.protocol_version != snap_before.protocol_version { "version" } else { "state" };
@@ -948,8 +991,22 @@ fn exec_incoming(wd: &mut World, w: &[&str], run: &mut Run, prop: Prop, key: &mu
             }
         }
     }
+    // harness bookkeeping of "a valid unauthenticated DENY/RSTR answer since the last usable answer" (plain sources):
+    // bound to the pending request, expected version, stratum 0, DENY/RSTR code (v5: poll 127), not an NTS-NAK, not RATE
+    if !wd.nts && rec.is_some() && org_match && uid_bound && within && version_ok && stratum == 0 {
+        let kc = get("kc");
+        let pl: i8 = get("pl").parse().unwrap_or(0);
+        let last = snap_before.poll_interval.as_log();
+        let an = get("an") == "1";
+        let (rate, deny, ntsn) = if version == 5 { (pl > last && pl != 127, pl == 127, an) } else { (kc == "rate", kc == "deny" || kc == "rstr", kc == "ntsn") };
+        if deny && !rate && !ntsn {
+            wd.deny_seen = true;
+            run.hit("valid-plain-deny");
+        }
+    }
     // bookkeeping for later oracles
     if accepted {
+        wd.deny_seen = false;
         wd.polls_since_usable = 0;
         wd.usable_answers += 1;
         wd.deny_marked = false;
@@ -1238,6 +1295,28 @@ fn gen_incoming(rng: &mut Rng, g: &GenCfg, prop: Prop, since_timer_ns: &mut u64)
         t.push_str(&format!(" d.raw={}", hex(&rng.bytes(n))));
         return t;
     }
+    if rng.chance(if prop == Prop::C07 { 5 } else { 1 }, 40) {
+        // forged reply: everything in the clear (the request's unique identifier included), followed by a hand-made
+        // NTS authenticator whose ciphertext is empty or shorter than a SIV tag, nonce lengths around 16
+        let nl = *rng.pick(&[0usize, 1, 15, 16, 16, 17, 32]);
+        let cl = match rng.below(4) {
+            0 | 1 => 0,
+            _ => rng.usize(1, 15),
+        };
+        let (st, rid, pl) = match rng.below(4) {
+            0 => (0, KISS_DENY, 127),
+            1 => (0, KISS_RATE, 12),
+            _ => (rng.range(1, 15), 0x7f00_0001u32, rng.range(g.min as i64, (g.max as i64).max(g.min as i64))),
+        };
+        let v = match rng.below(6) {
+            0 => "4",
+            1 => "5",
+            _ => "exp",
+        };
+        let ck = if rng.chance(1, 3) { ",ck:100" } else { "" };
+        return t + &format!(" d.v={} d.org=match d.st={} d.rid={} d.pl={} d.an=0 d.mode=4 d.lp=0 d.rx={:016x} d.tx={:016x} d.rd={} d.rdp={} d.auth=none d.A=- d.E=- d.U=uid:match,draft{} d.fauth={}:{}",
+            v, st, rid, pl as i8 as u8, rng.next_u64(), rng.next_u64(), rng.below(1 << 20), rng.below(1 << 20), ck, nl, cl);
+    }
     if prop == Prop::C13 && rng.chance(5, 6) {
         return t + &gen_clean_answer(rng, g, prop);
     }
@@ -1468,6 +1547,35 @@ fn gen_script(rng: &mut Rng, prop: Prop) -> Vec<String> {
         Prop::C13 => *rng.pick(&[40u64, 80, 95, 100]),
         _ => *rng.pick(&[50u64, 80, 95]),
     };
+    if prop == Prop::C11 && !g.nts && rng.chance(1, 5) {
+        // structured history for the deny clause: some answered polls, then a valid unauthenticated DENY/RSTR answer
+        // (sometimes none, sometimes followed by one more usable answer, which clears it), then silence until the
+        // source is unreachable and beyond
+        let good = rng.usize(0, 3);
+        let mut dummy = 0u64;
+        let des = g.min as i64;
+        for _ in 0..good {
+            ops.push(format!("timer dt=16000000000 des={}", des));
+            ops.push(format!("incoming dt=1000000 sts={:016x} rcv={:016x}{}", rng.next_u64(), rng.next_u64(), gen_clean_answer(rng, &g, prop)));
+        }
+        let with_deny = rng.chance(3, 4);
+        if with_deny {
+            ops.push(format!("timer dt=16000000000 des={}", des));
+            let code = if rng.chance(1, 2) { KISS_DENY } else { KISS_RSTR };
+            ops.push(format!("incoming dt=1000000 sts=0000000000000001 rcv=0000000000000002 d.v=exp d.org=match d.st=0 d.rid={} d.pl=127 d.an=0 d.mode=4 d.lp=0 d.rx=0000000000000001 d.tx=0000000000000002 d.rd=1 d.rdp=1 d.auth=none d.A=- d.E=- d.U=draft", code));
+            if rng.chance(1, 4) {
+                ops.push(format!("timer dt=16000000000 des={}", des));
+                ops.push(format!("incoming dt=1000000 sts={:016x} rcv={:016x}{}", rng.next_u64(), rng.next_u64(), gen_clean_answer(rng, &g, prop)));
+            }
+        }
+        for _ in 0..rng.usize(3, 11) {
+            ops.push(format!("timer dt=16000000000 des={}", des));
+            if rng.chance(1, 8) {
+                ops.push(gen_incoming(rng, &g, prop, &mut dummy));
+            }
+        }
+        return ops;
+    }
     let mut since_timer: u64 = 0;
     let mut i = 0;
     while i < n {
